@@ -10,6 +10,12 @@ Engine A.  Per archive (written by mc.models.arwriter, never by the repo) and pe
     other public ways (ACCESS_SHARED / ACCESS_FNAME: other constructor argument forms, iteration, members property,
     getmember / [] / extractfile, ArMember.from_file), with keyword-argument forms of the operations and close() in the
     alphabet; every archive's listing is also read through iter(), .members and extractfile().
+  * beyond the small scope (bounds()["beyond_the_small_scope"]): a size ladder (members of 997 bytes .. 256 KiB + 1 around every
+    power-of-two block size and k * 65536, line ends / lone CR / CR LF exactly at, before and after every block boundary, read(),
+    read(n) with n = what remains, chunked reads, readline, readline(n), readlines, both open modes, three positions in the
+    archive), count ladders (1..40 ... 5000 members per archive, 1..40 ... 5000 lines per member) and deep-narrow histories
+    (12 operations incl. close(), every history of depth 5; thorough 6).  Signatures start with size/, ladder/ or deep/; the
+    inputs are regenerated from the compact description in the case.
 Oracle: an io.BytesIO holding exactly the member's bytes, same call, same arguments.
 """
 import io
@@ -41,7 +47,34 @@ def bounds(tier):
                                           "seek(+-1,1) seek(-1,2) peer + read(size=1) read(size=-1) readline(size=2) readline(size=-1) "
                                           "seek(offset=,whence=) for whence 0/1/2 + close()",
                               "listing": "for EVERY archive of the check: iter(ar), ar.members, extractfile(name) / extractfile(member) "
-                                         "(unique names) list the same members (recorded fields compared) as getmembers()"}}
+                                         "(unique names) list the same members (recorded fields compared) as getmembers()"},
+            "beyond_the_small_scope": {
+                "size_ladder": {"member sizes": SIZES + (SIZES_THOROUGH if tier == "thorough" else []),
+                                "content": "non-periodic-in-blocks filler (period 23) with marks: %s = LF / lone CR / CR LF placed at B+delta for "
+                                           "every multiple B of the granularity inside the member and for B = size (so a line ends exactly at, "
+                                           "just before and just after every block boundary and the end); patterns that coincide at a size "
+                                           "run once" % ", ".join(SIZE_PATS),
+                                "position in the archive": "first member / after a 1-byte (padded) member / data starting at file offset 65536; "
+                                                           "always followed by a member %r" % FOLLOWER,
+                                "scripts": "%s: read(), read(n) for n = remaining / -1 / +1 from 0, from 1 and from every 64 KiB boundary +-1, "
+                                           "reading in chunks of 4096/16384/65536/65537 to the end, readline() to the end, readlines(), readline(n) "
+                                           "with n = remaining / -1 / +1 and in blocks of 16384/65536/65537, interleaved with the follower, "
+                                           "seeks relative to the end; every step compared with BytesIO (result, all cursors), shared file "
+                                           "object pre-positioned at 0 / end alternately" % ", ".join(SIZE_SCRIPTS),
+                                "open modes": ["shared fileobj", "filename"]},
+                "member_count_ladder": {"n": "every n in 1..40 and %r with a shared file object; up to 1025 by file name (one open file per "
+                                             "member)" % [n for n in COUNTS if n > 40],
+                                        "arrangements": "unique names / last member repeats the first name / every name twice; contents rotate "
+                                                        "over the 10 small contents (odd, even, empty) plus the member's number; name style and "
+                                                        "metadata rotate",
+                                        "checked": "names, recorded fields through getmembers / iter / members, getmember and [] = last of the name "
+                                                   "for every name, extractfile (n <= 300); then 8 rounds over ALL members (readline ascending, read() "
+                                                   "descending, read(1), seek(0), readlines evens-then-odds, seek(1), tell, read(-1)) - each result and "
+                                                   "cursor against BytesIO, all cursors after every round"},
+                "lines_per_member_ladder": {"n": "every n in 1..40 and %r" % [n for n in COUNTS if n > 40], "arrangements": LINE_ARRS,
+                                            "last line": ["closed", "open"], "scripts": LINE_SCRIPTS},
+                "deep_histories": "alphabet %r on each of the two members of [a LF b, a LF] (12 operations), EVERY history of depth %d, "
+                                  "replayed from a fresh archive, both open modes" % (DEEP_OPS, 5 if tier == "quick" else 6)}}
 
 
 def assumptions():
@@ -56,6 +89,10 @@ def assumptions():
             "close(): 'sharing one file object, or re-opening by file name' - a member that was closed is used again: with a "
             "file name it re-opens the file and continues at its cursor, with a shared file object close() leaves the caller's "
             "file object alone; in both cases the cursor is unchanged (this is what the unchanged library does)",
+            "beyond the small scope: large members and many-member archives are generated from a compact description in the case "
+            "(sizes, mark pattern, filler number), never stored; the oracle is the same io.BytesIO comparison as in the small "
+            "scope; nothing is sampled - every (size, pattern, position, open mode, script) combination and every count of the "
+            "ladders is run; seed rotates the 23-byte filler alphabet only",
             "left out: extractfile(name) for a name that occurs twice (documented in the source to give the first such "
             "member, unlike getmember), next() and iteration over a member (documented one-line generator; not among the "
             "operations the statement names), seekable(), copies of member objects, non-ASCII member names with other "
@@ -116,12 +153,15 @@ def units(tier, seed):
                 out.append({"members": members, "style": ("gnu", "bsd")[k % 2], "mode": mode, "tree": 2, "access": access})
         k += 1
     out.append({"big": True})
+    out += scale_units(tier)
     return out
 
 
 def unit_cost(u, tier):
     if u.get("big"):
         return 40 ** 3
+    if u.get("scale"):
+        return {"size": 30000 + u.get("L", 0) // 4, "members": 40000, "lines": 40000, "deep": 3000000}[u["scale"]]
     n = len(u["members"])
     if u["mode"] == "named":
         return 300 * (20 * max(n, 1)) ** u["tree"]          # two scratch files per replayed history
@@ -561,10 +601,494 @@ def run_big(part, depth):
     return part
 
 
+# ---------------------------------------------------------------- beyond the small scope: size and count ladders
+
+SIZES = [997, 998, 999, 1000, 4095, 4096, 4097, 16383, 16384, 16385, 65535, 65536, 65537, 131071, 131072, 131073,
+         196607, 196608, 196609, 262143, 262144, 262145]
+SIZES_THOROUGH = [327679, 327680, 327681, 524287, 524288, 524289, 1048575, 1048576, 1048577]
+COUNTS = list(range(1, 41)) + [63, 64, 65, 100, 127, 128, 129, 255, 256, 257, 999, 1000, 1001, 1025, 2500, 2501, 5000]
+MEMBER_COUNTS_FNAME = [n for n in COUNTS if n <= 1025]      # (one open file per member in that mode)
+# 23 bytes each (23 is coprime to every block size, so data shifted by a block is different data), no LF, no CR
+FILLS = [b"abcdefghijklmnopqrstuvw", b"ABCDEFGHIJKLMNOPQRSTUVW", bytes(range(0x80, 0x97)), bytes(range(0xe9, 0x100))]
+FOLLOWER = b"NEXT\nmember\n"
+SIZE_PATS = (["fill", "nl-last", "nl-last-but-one"] + ["nl/%+d/%d" % (d, g) for g in (65536, 16384, 4096) for d in (-1, 0, 1)] +
+             ["cr/-1/16384", "cr/+0/16384", "crlf/-1/16384", "crlf/-2/65536"])
+SIZE_ALIGNS = ["first", "after-odd", "file-block"]
+SIZE_SCRIPTS = ["read-all", "read-n", "read-rest", "chunks/65536", "chunks/16384", "chunks/65537", "chunks/4096", "readline-loop",
+                "readlines", "readline-n", "readline-blocks", "interleave", "seek-end"]
+MEMBER_ARRS = ["unique", "dup-ends", "pairs"]
+LINE_ARRS = ["plain", "blank-alternating", "all-blank", "long-first", "long-last"]
+LINE_SCRIPTS = ["readlines", "readline-loop", "readline-interleaved", "read"]
+
+
+def size_marks(L, pat):
+    """byte positions of the big member that do not hold filler -> byte value"""
+    if pat == "fill":
+        return {}
+    if pat == "nl-last":
+        return {L - 1: 10}
+    if pat == "nl-last-but-one":
+        return {L - 2: 10}
+    kind, delta, gran = pat.split("/")
+    d, g = int(delta), int(gran)
+    out = {}
+    for B in list(range(g, L + 1, g)) + [L]:
+        p = B + d
+        if 0 <= p < L:
+            if kind == "nl":
+                out[p] = 10
+            elif kind == "cr":
+                out[p] = 13
+            else:
+                out[p] = 13
+                if p + 1 < L:
+                    out[p + 1] = 10
+    return out
+
+
+def size_content(L, pat, fill):
+    f = FILLS[fill % len(FILLS)]
+    buf = bytearray((f * (L // len(f) + 1))[:L])
+    for p, v in size_marks(L, pat).items():
+        buf[p] = v
+    return bytes(buf)
+
+
+def line_content(n, arr, tail, fill):
+    a = FILLS[fill % len(FILLS)][:1]
+    lines = []
+    for i in range(n):
+        if arr == "all-blank" or (arr == "blank-alternating" and i % 2):
+            lines.append(b"\n")
+        elif (arr == "long-first" and i == 0) or (arr == "long-last" and i == n - 1):
+            lines.append(a * 70000 + b"\n")
+        else:
+            lines.append(a + b"%d\n" % i)
+    if tail == "open":
+        lines[-1] = lines[-1][:-1] or a
+    return b"".join(lines)
+
+
+def scale_members(case):
+    """-> (members, style, index of the member under study, index of the follower or None)"""
+    fill = case.get("fill", 0)
+    if case["scale"] == "size":
+        big = size_content(case["L"], case["pat"], fill)
+        pre = {"first": [], "after-odd": [("p", b"x", 0, 0, 0)],
+               "file-block": [("p", b"P" * (65536 - 8 - 60 - 60), 1000, 1000, 1000)]}[case["align"]]
+        ms = pre + [("big", big, 123456789012, 999999, 999999), ("next", FOLLOWER, 0, 0, 0)]
+        return ms, case["style"], len(pre), len(pre) + 1
+    if case["scale"] == "lines":
+        data = line_content(case["n"], case["arr"], case["tail"], fill)
+        return [("text", data, 1000, 1000, 1000), ("next", FOLLOWER, 0, 0, 0)], case["style"], 0, 1
+    n, arr = case["n"], case["arr"]
+    cs = contents(fill)
+    ms = []
+    for i in range(n):
+        data = cs[(i + n) % len(cs)] + (b"" if i % 4 == 0 else b"%d" % i)
+        name = "m%d" % i
+        if arr == "dup-ends" and i == n - 1 and n >= 2:
+            name = "m0"
+        elif arr == "pairs" and n >= 2:
+            name = "m%d" % (i % ((n + 1) // 2))
+        ms.append((name, data) + META[(i + n) % 3])
+    return ms, case["style"], None, None
+
+
+def scale_ops(case, members, bi, fi):
+    """the operation script of a size / lines case: list of (member index, op)"""
+    data = members[bi][1]
+    L = len(data)
+    nlines = data.count(b"\n") + (0 if data.endswith(b"\n") or not data else 1)
+    s = case["script"]
+    B = lambda *op: (bi, op)
+    F = lambda *op: (fi, op)
+    if s == "read-all" or s == "read":
+        return [B("read"), B("tell"), B("read"), B("read", 1), F("read"), B("seek", 0), B("read", -1), B("tell")]
+    if s == "read-n":          # n = exactly what remains, one less, one more
+        return [B("read", L), B("tell"), B("read", 1), B("seek", 0), B("read", L + 1), B("seek", 0), B("read", L - 1), B("read", 1),
+                B("read", 1), B("seek", 1), B("read", L - 1), B("tell"), F("read", len(FOLLOWER)), F("read", 1)]
+    if s == "read-rest":
+        cuts = {1, L // 2, L - 1}
+        for blk in range(16384, L, 16384):
+            if blk % 65536 == 0 or blk == 16384:
+                cuts |= {blk - 1, blk, blk + 1}
+        ops = []
+        for c in sorted(x for x in cuts if 0 < x < L):
+            ops += [B("seek", c), B("read", L - c), B("tell"), B("seek", c), B("read"), B("seek", 0), B("read", c), B("tell")]
+        return ops
+    if s.startswith("chunks/"):
+        k = int(s.split("/")[1])
+        return [B("read", k)] * (L // k + 2) + [B("tell"), F("read", k)]
+    if s == "readline-loop":
+        return [B("readline")] * (nlines + 2) + [B("tell"), F("readline")]
+    if s == "readlines":
+        return [B("readlines"), B("tell"), B("readlines"), B("seek", 0), B("readlines"), F("readlines")]
+    if s == "readline-n":      # a limit of exactly what remains / one less / one more, in one call each
+        return [B("readline", L), B("tell"), B("seek", 0), B("readline", L + 1), B("tell"), B("seek", 0), B("readline", L - 1),
+                B("readline", 1), B("readline", 1), B("seek", 0), B("readline", -1), B("tell"), B("seek", 1), B("readline", L - 1),
+                B("tell")]
+    if s == "readline-blocks":
+        ops = []
+        for k in (65536, 65537, 16384):
+            ops += [B("seek", 0)] + [B("readline", k)] * (L // k + min(nlines, 70) + 1) + [B("tell")]
+        return ops
+    if s == "interleave":
+        c0 = min(65536, max(L // 2, 1))
+        return [B("read", c0), F("readline"), B("readline"), F("read"), B("tell"), B("read"), F("seek", 0), F("read"), B("tell")]
+    if s == "readline-interleaved":
+        return [B("readline"), F("readline")] * (min(nlines, 3)) + [B("readline")] * nlines + [B("tell"), F("read")]
+    if s == "seek-end":
+        ops = [B("seek", -1, 2), B("read"), B("seek", 0, 2), B("read", 1), B("readline"), B("seek", L + 1), B("read"),
+               B("readline"), B("readlines"), B("tell")]
+        if L >= 65536:
+            ops += [B("seek", -65536, 2), B("read"), B("seek", -65536, 2), B("readline"), B("tell"), B("seek", -65537, 2), B("read", 65536)]
+        return ops
+    raise ValueError(s)
+
+
+def brief_pair(want, got):
+    def one(x):
+        if isinstance(x, bytes) and len(x) > 80:
+            return "bytes len=%d head=%r tail=%r" % (len(x), x[:24], x[-24:])
+        if isinstance(x, list) and (len(x) > 12 or any(isinstance(y, bytes) and len(y) > 80 for y in x)):
+            return "list of %d: %s%s" % (len(x), ", ".join(one(y) for y in x[:4]), " ... " + one(x[-1]) if len(x) > 4 else "")
+        return repr(x)
+    w, g = one(want), one(got)
+    if isinstance(want, bytes) and isinstance(got, bytes) and len(want) > 80:
+        k = next((i for i, (a, b) in enumerate(zip(want, got)) if a != b), min(len(want), len(got)))
+        g += " (first difference at byte %d)" % k
+    elif isinstance(want, list) and isinstance(got, list) and len(want) > 12:
+        k = next((i for i, (a, b) in enumerate(zip(want, got)) if a != b), min(len(want), len(got)))
+        g += " (first difference at item %d: %s vs %s)" % (k, one(want[k]) if k < len(want) else "-", one(got[k]) if k < len(got) else "-")
+    return w, g
+
+
+def meta_fast(r):
+    """the listing of a many-member archive in O(n): names, recorded fields, lookup by name = last of that name"""
+    exp = [(e[0], len(e[1]), e[2], e[3], e[4]) for e in r.members]
+    names = r.ar.getnames()
+    if names != [e[0] for e in exp]:
+        k = next((i for i, (a, b) in enumerate(zip(names, exp)) if a != b[0]), min(len(names), len(exp)))
+        return ("ar/meta/names", "%d names" % len(exp), "%d names, first difference at #%d" % (len(names), k))
+    for how, ms in (("getmembers", r.ar.getmembers()), ("iter", list(r.ar)), ("members-property", list(r.ar.members))):
+        got = [(m.name, m.size, m.mtime, m.owner, m.group) for m in ms]
+        if got != exp:
+            k = next((i for i, (a, b) in enumerate(zip(got, exp)) if a != b), min(len(got), len(exp)))
+            return ("ar/meta/fields" if how == "getmembers" else "ar/meta/" + how, "%d members; #%d = %r" % (len(exp), k, exp[k] if k < len(exp) else None),
+                    "%d members; #%d = %r" % (len(got), k, got[k] if k < len(got) else None))
+    last = {}
+    for i, e in enumerate(exp):
+        last[e[0]] = i
+    arms = r.ar.getmembers()
+    for name, i in last.items():
+        for how in ("getmember", "getitem"):
+            try:
+                m = r.ar.getmember(name) if how == "getmember" else r.ar[name]
+            except KeyError:
+                return ("ar/meta/%s-raises" % how, "member #%d for %r" % (i, name), "KeyError")
+            if m is not arms[i]:
+                return ("ar/meta/%s-last" % how, "member #%d for %r" % (i, name),
+                        "member #%r" % [j for j, x in enumerate(arms) if x is m][:3])
+    first = {}
+    for i, e in enumerate(exp):
+        first.setdefault(e[0], i)
+    if len(exp) <= 300:
+        for name, i in first.items():
+            if last[name] == i and r.ar.extractfile(name) is not arms[i]:
+                return ("ar/meta/extractfile-name", "member #%d for %r" % (i, name), repr(r.ar.extractfile(name)))
+    return None
+
+
+def run_members_case(case, part=None):
+    members, style, _, _ = scale_members(case)
+    n = len(members)
+    try:
+        r = Run(members, style, case["mode"])
+    except Exception as e:
+        return ("ar/open-raises/" + type(e).__name__, "archive of %d members is indexed" % n, "%s: %s" % (type(e).__name__, e))
+    try:
+        bad = meta_fast(r)
+        if part is not None:
+            part.evaluations += 1
+        if bad:
+            return bad
+        if n <= 65:
+            bad = r.meta()
+            if bad:
+                return bad[0]
+        k = [0]
+
+        def do(mi, op):
+            if r.under is not None:
+                r.under.seek((0, len(r.raw))[k[0] % 2])
+            k[0] += 1
+            m, ref = r.ms[mi], r.refs[mi]
+            try:
+                if op[0] == "seek":
+                    m.seek(*op[1:])
+                    ref.seek(*op[1:])
+                    want = got = None
+                else:
+                    want = getattr(ref, op[0])(*op[1:])
+                    got = getattr(m, op[0])(*op[1:])
+            except Exception as e:
+                return ("ar/%s/raises" % op[0], "no exception (member #%d of %d)" % (mi, n), "%s: %s" % (type(e).__name__, e))
+            if part is not None:
+                part.transitions += 1
+            if got != want:
+                return ("ar/%s/result" % op[0], "member #%d of %d: %r" % (mi, n, want), repr(got))
+            if m.tell() != ref.tell():
+                return ("ar/%s/cursor" % op[0], "member #%d of %d at %d" % (mi, n, ref.tell()), m.tell())
+            return None
+
+        def vector(after):
+            cur, rcur = [x.tell() for x in r.ms], [x.tell() for x in r.refs]
+            if cur != rcur:
+                j = next(i for i in range(n) if cur[i] != rcur[i])
+                return ("ar/%s/isolation" % after, "member #%d of %d at %d" % (j, n, rcur[j]), cur[j])
+            if part is not None:
+                part.evaluations += 1
+            return None
+        rounds = [(range(n), ("readline",)), (range(n - 1, -1, -1), ("read",)), (range(n), ("read", 1)), (range(n), ("seek", 0)),
+                  (list(range(0, n, 2)) + list(range(1, n, 2)), ("readlines",)), (range(n - 1, -1, -1), ("seek", 1)),
+                  (range(n), ("tell",)), (range(n), ("read", -1))]
+        for order, op in rounds:
+            for mi in order:
+                if op[0] == "seek" and op[1] > len(members[mi][1]) + 1:
+                    continue
+                bad = do(mi, op)
+                if bad:
+                    return bad
+            bad = vector(op[0])
+            if bad:
+                return bad
+        return None
+    finally:
+        r.close()
+
+
+def exec_script(members, style, mode, path, ops, part=None):
+    try:
+        r = Run(members, style, mode, path)
+    except Exception as e:
+        return ("ar/open-raises/" + type(e).__name__, "archive is indexed", "%s: %s" % (type(e).__name__, e))
+    try:
+        bad = r.meta()
+        if bad:
+            return bad[0]
+        for j, (mi, op) in enumerate(ops):
+            if not r.enabled(mi, op):
+                continue
+            bad = r.step(mi, op, None if r.under is None else (0, -1)[j % 2])
+            if part is not None:
+                part.transitions += 1
+                part.evaluations += 1
+            if bad:
+                return (bad[0],) + brief_pair(bad[1], bad[2])
+        return None
+    finally:
+        r.close()
+
+
+def scale_sig(case, sig):
+    if case["scale"] == "size":
+        return "size/%s/%s" % (case["script"], sig)
+    if case["scale"] == "lines":
+        return "ladder/lines/%s/%s" % (case["script"], sig)
+    return "ladder/members/%s" % sig
+
+
+def run_scale_case(case, path=None, part=None):
+    """-> None or (sig, expected, observed); the archive is generated from the compact description in the case"""
+    if case["scale"] == "deep":
+        r = Run(deep_members(case.get("fill", 0)), "gnu", case["mode"])
+        try:
+            for j, (mi, op) in enumerate(case["history"]):
+                bad = r.step(mi, tuple(op), None if r.under is None else (0, -1)[j % 2])
+                if bad:
+                    return ("deep/" + bad[0], bad[1], bad[2])
+            return None
+        finally:
+            r.close()
+    if case["scale"] == "members":
+        bad = run_members_case(case, part)
+    else:
+        members, style, bi, fi = scale_members(case)
+        bad = exec_script(members, style, case["mode"], path, scale_ops(case, members, bi, fi), part)
+    return (scale_sig(case, bad[0]), bad[1], bad[2]) if bad else None
+
+
+# deep and narrow: a small alphabet chosen for hidden state (the lazily opened / closed file of a member, a cursor left
+# beyond the end, the position of the shared file object), every history to depth 5-6 on a two-member archive
+DEEP_OPS = [("readline",), ("read", 1), ("read",), ("seek", 0), ("seek", 1, 2), ("close",)]
+
+
+def deep_members(fill):
+    cs = contents(fill)
+    return [("m0", cs[6], 0, 0, 0), ("m1", cs[4], 1000, 1000, 1000)]      # a\nb (last line open, odd size) and a\n
+
+
+def run_deep(part, u, seed):
+    fill = seed % len(FILLS)
+    members, mode, depth = deep_members(fill), u["mode"], u["depth"]
+    allops = [(mi, op) for mi in (0, 1) for op in DEEP_OPS]
+    path = None
+    if mode == "fname":
+        fd, path = tempfile.mkstemp(prefix="verif-c06-")
+        os.write(fd, arwriter.build(members, "gnu"))
+        os.close(fd)
+    base = {"scale": "deep", "mode": mode, "fill": fill}
+    part.max_depth = depth
+
+    def attempt(hist):
+        r = Run(members, "gnu", mode, path)
+        try:
+            for j, (mi, op) in enumerate(hist):
+                bad = r.step(mi, op, None if r.under is None else (0, -1)[j % 2])
+                if bad:
+                    return bad
+            return None
+        finally:
+            r.close()
+
+    def rec(hist):
+        bad = attempt(hist)
+        part.transitions += 1
+        part.evaluations += 1
+        if bad:
+            part.violation("deep/" + bad[0], dict(base, history=hist), bad[1], bad[2], rank=len(hist))
+            return
+        part.outcomes["deep/" + hist[-1][1][0]] += 1
+        part.states += 1
+        if len(hist) == depth:
+            part.traces += 1
+            part.nontrivial += 1
+            return
+        for step in allops:
+            rec(hist + [step])
+    try:
+        rec([allops[u["first"]]])
+        part.sample(dict(base, history=[allops[u["first"]]] + [allops[-1], allops[0]]))
+    finally:
+        if path:
+            os.unlink(path)
+    return part
+
+
+def scale_units(tier):
+    out = []
+    for L in SIZES + (SIZES_THOROUGH if tier == "thorough" else []):
+        for mode in ("shared", "fname"):
+            out.append({"scale": "size", "L": L, "mode": mode})
+    for mode in ("shared", "fname"):
+        for first in range(len(DEEP_OPS) * 2):
+            out.append({"scale": "deep", "mode": mode, "first": first, "depth": 5 if tier == "quick" else 6})
+        for arr in MEMBER_ARRS:
+            ns = COUNTS if mode == "shared" else MEMBER_COUNTS_FNAME
+            out.append({"scale": "members", "arr": arr, "mode": mode, "ns": [n for n in ns if n <= 40]})
+            out.append({"scale": "members", "arr": arr, "mode": mode, "ns": [n for n in ns if 40 < n <= 257]})
+            out.append({"scale": "members", "arr": arr, "mode": mode, "ns": [n for n in ns if 257 < n <= 1025]})
+            if mode == "shared":
+                out.append({"scale": "members", "arr": arr, "mode": mode, "ns": [n for n in ns if n > 1025]})
+        for arr in LINE_ARRS:
+            out.append({"scale": "lines", "arr": arr, "mode": mode})
+    return out
+
+
+def run_scale_unit(part, u, tier, seed):
+    if u["scale"] == "deep":
+        return run_deep(part, u, seed)
+    fill = seed % len(FILLS)
+    mode = u["mode"]
+    if u["scale"] == "members":
+        for n in u["ns"]:
+            if n == 1 and u["arr"] != "unique":
+                continue
+            case = {"scale": "members", "n": n, "arr": u["arr"], "mode": mode, "style": ("gnu", "bsd")[n % 2], "fill": fill}
+            part.states += 1
+            bad = run_scale_case(case, None, part)
+            part.traces += 1
+            if bad:
+                part.violation(bad[0], case, bad[1], bad[2], rank=n)
+                continue
+            part.nontrivial += 1
+            part.outcomes["ladder/members/%s" % u["arr"]] += 1
+            part.extra["member-count ladder cases (%s)" % mode] += 1
+            part.max_depth = max(part.max_depth, 8)
+            if n == 40:
+                part.sample(case)
+        return part
+    if u["scale"] == "lines":
+        ns = COUNTS
+        for n in ns:
+            for tail in ("closed", "open"):
+                base = {"scale": "lines", "n": n, "arr": u["arr"], "tail": tail, "mode": mode, "style": ("gnu", "bsd")[n % 2], "fill": fill}
+                members = scale_members(base)[0]
+                path = None
+                if mode == "fname":
+                    fd, path = tempfile.mkstemp(prefix="verif-c06-")
+                    os.write(fd, arwriter.build(members, base["style"]))
+                    os.close(fd)
+                try:
+                    part.states += 1
+                    for s in LINE_SCRIPTS:
+                        case = dict(base, script=s)
+                        bad = exec_script(members, base["style"], mode, path, scale_ops(case, members, 0, 1), part)
+                        part.traces += 1
+                        if bad:
+                            part.violation(scale_sig(case, bad[0]), case, bad[1], bad[2], rank=n)
+                            continue
+                        part.nontrivial += 1
+                        part.outcomes["ladder/lines/%s" % s] += 1
+                        part.extra["lines-per-member ladder cases (%s)" % mode] += 1
+                        if n == 40 and tail == "open":
+                            part.sample(case)
+                finally:
+                    if path:
+                        os.unlink(path)
+        return part
+    L = u["L"]
+    seen = set()
+    for pat in SIZE_PATS:
+        key = frozenset(size_marks(L, pat).items())
+        if key in seen:              # at this size the pattern puts its marks where an earlier one did
+            continue
+        seen.add(key)
+        for align in SIZE_ALIGNS:
+            base = {"scale": "size", "L": L, "pat": pat, "align": align, "mode": mode, "style": ("gnu", "bsd")[L % 2], "fill": fill}
+            members, style, bi, fi = scale_members(base)
+            path = None
+            if mode == "fname":
+                fd, path = tempfile.mkstemp(prefix="verif-c06-")
+                os.write(fd, arwriter.build(members, style))
+                os.close(fd)
+            try:
+                part.states += 1
+                for s in SIZE_SCRIPTS:
+                    case = dict(base, script=s)
+                    bad = exec_script(members, style, mode, path, scale_ops(case, members, bi, fi), part)
+                    part.traces += 1
+                    if bad:
+                        part.violation(scale_sig(case, bad[0]), case, bad[1], bad[2], rank=L)
+                        continue
+                    part.nontrivial += 1
+                    part.outcomes["size/%s" % s] += 1
+                    part.extra["size ladder cases (%s)" % mode] += 1
+                    if pat == "nl/-1/65536" and s == "readlines":
+                        part.sample(case)
+            finally:
+                if path:
+                    os.unlink(path)
+    return part
+
+
 def run_unit(u, tier, seed):
     part = core.Part()
     if u.get("big"):
         return run_big(part, 2 if tier == "quick" else 3)
+    if u.get("scale"):
+        return run_scale_unit(part, u, tier, seed)
     members, style, mode = u["members"], u["style"], u["mode"]
     access = u.get("access")
     n = len(members)
@@ -669,6 +1193,9 @@ def run_unit(u, tier, seed):
 
 
 def replay(case):
+    if case.get("scale"):
+        bad = run_scale_case(case)
+        return [bad] if bad else []
     if case.get("big"):
         bad, _ = run_big_history([(mi, tuple(op)) for mi, op in case["history"]])
         return [bad] if bad else []
@@ -712,6 +1239,9 @@ def _replay(case, path, access):
 
 
 def repro_py(case):
+    if case.get("scale"):
+        return ("from mc.props import c06\ncase = %r\nbad = c06.run_scale_case(case)\n"
+                "assert not bad, bad   # (signature, expected, observed); the input is generated from the description\n" % (case,))
     return ("import io\nfrom debian.arfile import ArFile\nfrom mc.models import arwriter\n"
             "case = %r\nraw = arwriter.build([tuple(m) for m in case['members']], case['style'])\n"
             "ar = ArFile(fileobj=io.BytesIO(raw)); ms = ar.getmembers(); refs = [io.BytesIO(m[1]) for m in case['members']]\n"
